@@ -8,20 +8,24 @@ CONFIG = {
                  "hash function abstract) + byte-exact differential of normalize*/relabel* vs the compiled model (real SHA-256/384 "
                  "written in Lean) + Rust-side metamorphic oracle (relabel/reorder/container => same bytes; one-edit non-isomorphic "
                  "variant, judged by an independent backtracking isomorphism test => different bytes)",
-    "level_text": "Proof, for every hash function, depth guard and permutation limit (kernel-checked, no native_decide): the returned "
-                  "id map is injective with range exactly c14n0..c14n(n-1) (issued_bij), the returned quads are the input with that map "
-                  "applied (relabel_applies) and every blank node of the input is in the map on success (issued_total). The theorems are about the functions "
-                  "the driver executes; their tie to rdfc10.rs is the differential (out / id map / error kind / digests agree on every "
-                  "generated case, both hashes, all limits). Label-, order- and container-independence and separation of non-isomorphic "
-                  "datasets (the two directions of the invariant) are established by the metamorphic oracle on the implementation itself, "
-                  "i.e. by differential testing, not by proof.",
+    "level_text": "Proof, for every hash function, depth guard and permutation limit (kernel-checked, no native_decide): (complete) two well-formed "
+                  "datasets canonicalised to the same bytes are isomorphic; (issued_bij) the returned id map is injective with range exactly "
+                  "c14n0..c14n(n-1); (relabel_applies) the returned quads are the input with that map applied; (issued_total, step6_never_panics) "
+                  "every blank node gets an identifier and the unwrap of step 6 is unreachable; (sorted_is_line_order) the term-wise comparison of the "
+                  "final sort is the code-point order of the N-Quads lines; (first_degree_invariant) first-degree hashes are invariant under "
+                  "relabelling and reordering; (sound_distinct_partial) isomorphic datasets get identical bytes when all first-degree hashes are distinct. "
+                  "The theorems are about the functions the driver executes; their tie to rdfc10.rs is the differential (out / id map / error kind / "
+                  "digests agree on every generated case, both hashes, all limits). The unrestricted direction isomorphic => same bytes (SoundFull) is NOT "
+                  "proved: it is tested on the implementation by the metamorphic oracle (relabel / reorder / container => same bytes; one-edit "
+                  "non-isomorphic variants => different bytes).",
     "level_note": "Trusted: the hand-written model (tied per case), sha2 crate (validated per digest), Rust str order = code-point "
                   "order. The unrestricted soundness direction needs collision-freeness of the hash and is stated, not proved "
                   "(SophiaProofs.C05.SoundFull). The id map of automorphic nodes depends on the dataset's iteration order, so it is compared with the model "
                   "only for the order-preserving container.",
     "tables": ["cnq_escapes", "rdfc10_smaller_path"],
     "lean_targets": ["SophiaProofs.Props.C05", "SophiaProofs.Audit.C05"],
-    "theorems": ["issued_bij", "relabel_applies", "issued_total"],
+    "theorems": ["issued_bij", "relabel_applies", "issued_total", "step6_never_panics", "relabel_outcomes", "first_degree_invariant",
+                 "sorted_is_line_order", "output_lines_sorted", "complete", "sound_distinct_partial"],
     "native_ok": [],
     "trivial_re": r"^st=unsupported|^h=",
     "rule": "symmetric-structure generator (cycles 1-10(22), chains, cliques 2-5, stars, double stars, bipartite, disjoint isomorphic copies, "
